@@ -73,6 +73,19 @@ pub fn crate_input_name(n: &wire::Name) -> Option<String> {
     for l in n {
         std::str::from_utf8(l).ok()?;
     }
+    // Names the daemon learned from the network are kept as plain dotted text, backslashes and all: a backslash
+    // that escapes nothing ("CORP\alice") stands for itself. Half of the names that can be written that way
+    // without ambiguity (no dot inside a label, no backslash before a backslash or at the end) are.
+    let lone = |l: &Vec<u8>| l.contains(&b'\\') && !l.contains(&b'.') && l.last() != Some(&b'\\') && !l.windows(2).any(|w| w[0] == b'\\' && (w[1] == b'\\' || w[1] == b'.'));
+    let plain_ok = n.iter().all(|l| !l.contains(&b'\\') && !l.contains(&b'.') || lone(l));
+    if plain_ok && n.iter().any(lone) && crate::util::fnv_str(&wire::escaped(n)) % 2 == 0 {
+        let mut s = String::new();
+        for l in n {
+            s.push_str(std::str::from_utf8(l).ok()?);
+            s.push('.');
+        }
+        return Some(s);
+    }
     Some(wire::escaped(n))
 }
 
